@@ -1,0 +1,11 @@
+//go:build verif
+
+package bitcoin
+
+// Verification hook (build tag verif): re-exports existing identifiers only.
+
+// VerifUnsignedTransaction returns the transaction currently held by the
+// builder (inputs without signature data unless AddSignatures was called).
+func (tb *TransactionBuilder) VerifUnsignedTransaction() *Transaction {
+	return tb.internal.toTransaction()
+}
